@@ -2,18 +2,18 @@ SPECIFICATION Spec
 CONSTANTS
   Seeds <- MCSeeds
   ScenariosOf <- MCScenariosOf
-  MaxRead = 2
+  MaxRead = 12
   KF_FastInvertSkipsStopLine = FALSE
   KF_ReaderByteCountIgnoresPartial = FALSE
-  MaxLines = 5
-  Bodies <- BodiesMX
-  CtxMax = 2
+  MaxLines = 3
+  Bodies <- BodiesNul
+  CtxMax = 1
   Terms = {"lf"}
   Strats = {"reader", "slice"}
   Paths = {"slow", "fast"}
-  Caps = {2}
-  Flags = {"inv", "pass", "stopnm"}
-  Bins = {"none"}
+  Caps = {2, 4}
+  Flags = {"inv"}
+  Bins = {"quit", "convert"}
   PlanKinds = {}
 INVARIANTS BufInv ModelOK Emitted
 VIEW View
